@@ -20,7 +20,8 @@ CHECKS.update({
                 "squeeze, no broadcasting between different axes), gradient masked by the clip mask of the raw predictions, return "
                 "arity, pairing of Wasserstein dual potentials with their marginals, zero-distance masks. And the derivative itself: "
                 "evaluate() is translated to index-notation terms with symbolic sizes, the score term is differentiated symbolically and "
-                "compared as a canonical form with the returned gradient term (equal up to a per-sample constant) for all 12 objectives.",
+                "compared as a canonical form with the returned gradient term, with the clip mask as a symbolic 0/1 tensor (exact equality required: a "
+                "per-sample constant does not cancel along the simplex once an entry of the row is clipped), for all 12 objectives.",
         "note": "trusted: numpy/POT shape semantics as encoded in gcverif/e3_numpy.py; reaching definitions on a hand-built statement CFG.",
         "technique": "source-to-term translation with symbolic differentiation and canonical-form (term rewriting) comparison + named-axis abstract "
                      "interpretation + reaching definitions + mirror comparison",
